@@ -43,6 +43,8 @@ def fmt(sig):
 
 
 def run(ctx):
+    from .configtime import precision_zero_is_a_value as _prec0
+    _prec0(ctx, 'C09.R4', classes=('Recipe',))
     from .atomic import validate_before_mutate as _atomic
     _atomic(ctx, 'C09.R2', ('Recipe.start_stage', 'Recipe.end_stage'))
     from .iterables import single_pass_iterables as _single_pass
